@@ -207,10 +207,7 @@ func runC18(res *Result, rng *RNG, tier string, outDir string) {
 		lines = append(lines, c18ModelCase(content, snapshot))
 		descs = append(descs, trunc(azScenario{Ops: content}.String(), 400))
 	}
-	cf := NewCasesFile("Base Term Expr Datalog Authz DTerm Symbols Wire Snapshot Corr2")
-	cf.Raw("Definition cases : list snap_case := [\n  " + joinLines(lines) + "].\n")
-	cf.Raw("Definition M := Eval vm_compute in mismatches snap_ok cases.\nPrint M.\n")
-	cf.WriteTo(outDir, "Cases_C18.v")
+	WriteShards(res, outDir, "C18", "Base Term Expr Datalog Authz DTerm Symbols Wire Snapshot Corr2", "", "snap_case", "snap_ok", lines, 300)
 	res.ModelCases = len(lines)
 	res.CaseDescs = descs
 }
